@@ -7,6 +7,17 @@
 (* The document has np pages; page p is object 2 + p (1 = catalog, 2 = Pages), max_id = np+2.  *)
 (* Save;Load is the identity on the object graph at this level (the byte level is the subject  *)
 (* of C01-C03); it forgets the pending bookmark table and sets the xref format.                *)
+(*                                                                                             *)
+(* Three document/machine-side dimensions, each with a switch "as the code is" / repaired:     *)
+(*  - stack: every walker (adjust_zero_pages, build_outline, get_toc) has Stack frames; as it  *)
+(*    is it needs one frame per level of the forest and the process aborts when they run out   *)
+(*    (pc = "abort"); with WorkList it keeps its pending work on the heap and needs one frame. *)
+(*  - dests: the document carries a named-destination table in spelling env.dsp next to the    *)
+(*    forest; as it is get_toc fails on the spellings it cannot read, with FollowRefs it reads *)
+(*    all of them (no bookmark uses the table).                                                *)
+(*  - ids: object numbers end at env.idlimit; as it is build_outline's counter wraps, with     *)
+(*    CheckedIds it refuses (pc = "refused", document untouched) when the numbers up to        *)
+(*    idlimit - 1 do not suffice.                                                              *)
 EXTENDS Outline
 
 CONSTANTS MaxB,        \* bound on the number of bookmarks
@@ -14,11 +25,14 @@ CONSTANTS MaxB,        \* bound on the number of bookmarks
           MaxPost,     \* bound on the allocations between build_outline and the catalog link
           Reserve,     \* TRUE: build_outline leaves max_id past every id it used (as the code does);
                        \* FALSE: only past the root (deviation used as a control: Reserved must then fail)
-          Titles       \* sequence of pairwise distinct titles; bookmark k gets Titles[((k-1+rot) % Len) + 1]
+          Titles,      \* sequence of pairwise distinct titles; bookmark k gets Titles[((k-1+rot) % Len) + 1]
+          Stack, WorkList,
+          DestSpellings, FollowRefs,
+          IdLimits, CheckedIds
 
-VARIABLES np, rot, adds, bm, doc, pc, tocs, adjusted
+VARIABLES np, rot, env, adds, bm, doc, pc, tocs, adjusted
 
-vars == <<np, rot, adds, bm, doc, pc, tocs, adjusted>>
+vars == <<np, rot, env, adds, bm, doc, pc, tocs, adjusted>>
 
 Base(n) == n + 2
 PageIds(n) == [p \in 1..n |-> 2 + p]
@@ -28,15 +42,26 @@ TitleFor(k) == Titles[((k - 1 + rot) % Len(Titles)) + 1]
 NoDoc == [root |-> 0, maxid |-> 0, objs |-> NoObjs, linked |-> FALSE, xref |-> "stream", later |-> <<>>,
           post |-> 0, link |-> "none"]
 
+InitDoc(n) == [NoDoc EXCEPT !.maxid = Base(n)]
+
 Init ==
     /\ np \in NPs
     /\ rot \in 0..(Len(Titles) - 1)
+    /\ env \in [dsp : DestSpellings, idlimit : IdLimits]
     /\ adds = <<>>
     /\ bm = EmptyBm
-    /\ doc = [NoDoc EXCEPT !.maxid = Base(np)]
+    /\ doc = InitDoc(np)
     /\ pc = "add"
     /\ tocs = <<>>
     /\ adjusted = FALSE
+
+\* a walker that needs `frames` stack frames as it is
+Overflows(frames) == ~WorkList /\ frames > Stack
+
+\* object numbers available above max_id when the highest number stays below idlimit (so that Size exists)
+Room == (env.idlimit - 1) - Base(np)
+Needed == 1 + 2 * Len(adds)
+Enough == Needed <= Room
 
 AddBookmark ==
     /\ pc = "add" /\ Len(adds) < MaxB
@@ -44,61 +69,71 @@ AddBookmark ==
           LET t == TitleFor(Len(adds) + 1) IN
           /\ adds' = Append(adds, [parent |-> parent, title |-> t, page |-> page])
           /\ bm' = ImplAdd(bm, t, page, parent)
-    /\ UNCHANGED <<np, rot, doc, pc, tocs, adjusted>>
+    /\ UNCHANGED <<np, rot, env, doc, pc, tocs, adjusted>>
 
 AdjustZeroPages ==
     /\ pc = "add" /\ adds # <<>> /\ InDomain(adds, np)
-    /\ bm' = ImplAdjust(bm)
-    /\ adjusted' = TRUE
-    /\ pc' = "build"
-    /\ UNCHANGED <<np, rot, adds, doc, tocs>>
+    /\ IF Overflows(ForestFrames(bm.tbl, bm.bms))
+       THEN pc' = "abort" /\ UNCHANGED <<bm, adjusted>>
+       ELSE bm' = ImplAdjust(bm) /\ adjusted' = TRUE /\ pc' = "build"
+    /\ UNCHANGED <<np, rot, env, adds, doc, tocs>>
 
 \* adjust_zero_pages may be left out when no bookmark has the zero page
 SkipAdjust ==
     /\ pc = "add" /\ adds # <<>> /\ InDomain(adds, np) /\ ~HasZero(adds)
     /\ pc' = "build"
-    /\ UNCHANGED <<np, rot, adds, bm, doc, tocs, adjusted>>
+    /\ UNCHANGED <<np, rot, env, adds, bm, doc, tocs, adjusted>>
 
 BuildOutline ==
     /\ pc = "build"
-    /\ LET b == ImplBuild(bm, doc.maxid) IN
-       doc' = [doc EXCEPT !.root = b.root, !.maxid = IF Reserve THEN b.maxid ELSE b.root, !.objs = b.objs]
-    /\ pc' = "post"
-    /\ UNCHANGED <<np, rot, adds, bm, tocs, adjusted>>
+    /\ IF Overflows(ForestFrames(bm.tbl, bm.bms))
+       THEN pc' = "abort" /\ UNCHANGED doc
+       ELSE IF CheckedIds /\ ~Enough
+       THEN pc' = "refused" /\ UNCHANGED doc
+       ELSE LET b0 == ImplBuild(bm, doc.maxid)
+                b  == IF b0.maxid > env.idlimit THEN WrapBuild(b0, env.idlimit) ELSE b0
+            IN /\ doc' = [doc EXCEPT !.root = b.root, !.maxid = IF Reserve THEN b.maxid ELSE b.root, !.objs = b.objs]
+               /\ pc' = "post"
+    /\ UNCHANGED <<np, rot, env, adds, bm, tocs, adjusted>>
 
 \* any further allocation on the document after the outline was built (add_object stores, new_object_id
 \* only reserves; the harness alternates, starting with add_object)
 AddObject ==
     /\ pc = "post" /\ doc.post < MaxPost
     /\ doc' = [ImplAlloc(doc, doc.post % 2 = 0) EXCEPT !.post = @ + 1]
-    /\ UNCHANGED <<np, rot, adds, bm, pc, tocs, adjusted>>
+    /\ UNCHANGED <<np, rot, env, adds, bm, pc, tocs, adjusted>>
 
 \* /Outlines set in the existing catalog through catalog_mut()
 LinkCatalog ==
     /\ pc = "post"
     /\ doc' = [doc EXCEPT !.linked = TRUE, !.link = "mut"]
     /\ pc' = "toc"
-    /\ UNCHANGED <<np, rot, adds, bm, tocs, adjusted>>
+    /\ UNCHANGED <<np, rot, env, adds, bm, tocs, adjusted>>
 
 \* a new catalog carrying /Outlines is created with add_object and made the trailer's Root
 LinkNewCatalog ==
     /\ pc = "post"
     /\ doc' = [ImplAlloc(doc, TRUE) EXCEPT !.linked = TRUE, !.link = "new"]
     /\ pc' = "toc"
-    /\ UNCHANGED <<np, rot, adds, bm, tocs, adjusted>>
+    /\ UNCHANGED <<np, rot, env, adds, bm, tocs, adjusted>>
 
 GetToc ==
     /\ pc = "toc"
-    /\ tocs' = Append(tocs, [ok |-> doc.linked, toc |-> IF doc.linked THEN ImplToc(doc.objs, doc.root, np) ELSE <<>>])
-    /\ pc' = IF Len(tocs) = 2 THEN "done" ELSE "save"
-    /\ UNCHANGED <<np, rot, adds, bm, doc, adjusted>>
+    /\ IF doc.root \in DOMAIN doc.objs
+          /\ Overflows(OutlineFrames(doc.objs, doc.objs[doc.root].first, Cardinality(DOMAIN doc.objs) + 1))
+       THEN pc' = "abort" /\ UNCHANGED tocs
+       ELSE LET readable == doc.linked /\ (FollowRefs \/ env.dsp \notin DestsUnreadableAsIs)
+            IN /\ tocs' = Append(tocs, [ok |-> readable,
+                                        toc |-> IF readable THEN ImplToc(doc.objs, doc.root, np) ELSE <<>>])
+               /\ pc' = IF Len(tocs) = 2 THEN "done" ELSE "save"
+    /\ UNCHANGED <<np, rot, env, adds, bm, doc, adjusted>>
 
 SaveLoad ==
     /\ pc = "save"
     /\ doc' = [doc EXCEPT !.xref = IF Len(tocs) = 1 THEN "table" ELSE "stream"]
     /\ bm' = EmptyBm
     /\ pc' = "toc"
-    /\ UNCHANGED <<np, rot, adds, tocs, adjusted>>
+    /\ UNCHANGED <<np, rot, env, adds, tocs, adjusted>>
 
 Next == AddBookmark \/ AdjustZeroPages \/ SkipAdjust \/ BuildOutline \/ AddObject \/ LinkCatalog \/ LinkNewCatalog
            \/ GetToc \/ SaveLoad
